@@ -6,7 +6,11 @@ _m(
     "Hypothesis draws one of five case kinds; every array is a pure function of a drawn integer seed (complex normal, "
     "scale 1e-3/1/1e3 where the identity is linear).  shift: complex128/complex64 2-D array or probe stack (M<=4), roi "
     "2..16 per axis (odd/even, non-square), numpy or torch backend, 1-3 positions with real shifts a, b (fractional, "
-    "+-3x size, halves, integers) and integer shifts s (|s| <= 3x size).  prop: roi 2..16, sampling 0.1-1 A, energy "
+    "+-3x size, halves, integers) and integer shifts s (|s| <= 3x size); the shift vectors are held in a numpy array / "
+    "torch tensor (same backend as the data; lists are rejected by the package) of dtype float of the data's width (what the "
+    "package's callers pass), float64, float32, int64, int32 or int16 (integer dtypes carry whole-pixel a, b), and with "
+    "`mix` one side of each law is written in the other spelling (int-typed a with float-typed b and a+b; float-typed a "
+    "with int64-typed s).  prop: roi 2..16, sampling 0.1-1 A, energy "
     "10 keV-1 MeV, tilts 0 or +-30 mrad, two signed distances in +-40 A (stack a, b, a+b, -a), complex128/complex64 "
     "waves; plus a HISTORY of 1-3 further propagator requests on the SAME probe-model instance (learn_probe_tilt on in "
     "1/4): each names 1-3 distances from the pool [a, b, a+b, -a, -b, -(a+b)] or repeats the previous request exactly "
@@ -31,7 +35,8 @@ _m(
     "the exit waves (1..4 modes, batch 1..3 / scan batch, odd/even/non-square roi) against the float64 reference "
     "fftshift(sum over modes |ortho fft2|^2), and, with the library's own detector as observer, "
     "DetectorPixelated.forward(fourier_projection(A, x)) == A**2.  A case is NON-TRIVIAL when: shift - some shift "
-    "component is non-integer on an even-length axis; prop - a propagator carries more than 0.01 rad of phase; adjoint - "
+    "component is non-integer on an even-length axis, or the shifts are held in an integer dtype, or int and float "
+    "spellings are mixed; prop - a propagator carries more than 0.01 rad of phase; adjoint - "
     "the index set contains a repeated index; chain - S >= 2 or M >= 2; proj - the measured amplitudes contain an exact "
     "zero or M >= 2.  distinct = SHA-1 of the canonical JSON of the whole case.",
     [
@@ -59,6 +64,10 @@ _m(
         "operator is a function of its parameters only; on the clean tree the two are bitwise equal",
         "detector reference: 1e-10 (complex128) / 1e-4 (complex64) of the pattern's total intensity per pixel; observer "
         "check: the magnitude tolerance t propagated to intensities, t*(2A+t), plus the same rounding term",
+        "translation precision class: complex128 tolerances apply only when the data are complex128 and every position "
+        "array used multiplies the library's float32 frequency grid in float64 (float64 positions; numpy int32/int64); "
+        "float32, int16 and all torch integer positions are evaluated in float32 and get the complex64 tolerances (probed "
+        "on the pinned tree: all of these dtypes are accepted and roll exactly to <= 5e-6)",
         "real-valued arrays are outside the translation domain (the property quantifies over complex arrays; the real "
         "path takes .real, which is not unitary at the Nyquist frequency)",
         "scan grids have >= 2 points per axis and a field of view of >= 1 object pixel (a 1-point axis gives a "
